@@ -150,6 +150,10 @@ func (ex *Exec) bigModOp(x, m BigVal) BigVal {
 		g := &GroupFacet{Mod: x.G.Mod, Exps: x.G.Exps, Reduced: true}
 		return BigVal{I: ex.groupIval(g), G: g}
 	}
+	if cg, ok := ex.congruentElement(x, m.I); ok {
+		g := &GroupFacet{Mod: cg.Mod, Exps: cg.Exps, Reduced: true}
+		return BigVal{I: ex.groupIval(g), G: g}
+	}
 	if m.E != nil && isRealZero(m.E) {
 		// reduction of an exponent modulo the group order keeps its meaning
 		r := ex.freshInt("expmod", big.NewInt(0), m.I.Hi)
